@@ -123,6 +123,15 @@ func joinValues(values []any, sep string) string {
 	return strings.Join(strValues, sep)
 }
 
+// defaultAsText serializes a default value the way simple / non-exploded form style does:
+// array items are joined by commas.
+func defaultAsText(value any) string {
+	if values, ok := value.([]any); ok {
+		return joinValues(values, ",")
+	}
+	return fmt.Sprint(value)
+}
+
 // populateDefaultQueryParameters populates default values inside query parameters, while ensuring types are respected
 func populateDefaultQueryParameters(q url.Values, parameterName string, value any, explode bool) {
 	switch t := value.(type) {
@@ -190,15 +199,18 @@ func ValidateParameter(ctx context.Context, input *RequestValidationInput, param
 				// Next check `parameter.Required && !found` will catch this.
 			case openapi3.ParameterInQuery:
 				q := req.URL.Query()
-				explode := parameter.Explode != nil && *parameter.Explode
+				explode := true // the default for query parameters
+				if sm, err := parameter.SerializationMethod(); err == nil {
+					explode = sm.Explode
+				}
 				populateDefaultQueryParameters(q, parameter.Name, value, explode)
 				req.URL.RawQuery = q.Encode()
 			case openapi3.ParameterInHeader:
-				req.Header.Add(parameter.Name, fmt.Sprint(value))
+				req.Header.Add(parameter.Name, defaultAsText(value))
 			case openapi3.ParameterInCookie:
 				req.AddCookie(&http.Cookie{
 					Name:  parameter.Name,
-					Value: fmt.Sprint(value),
+					Value: defaultAsText(value),
 				})
 			}
 		}
